@@ -618,11 +618,11 @@ func init() {
 				func() {
 					defer func() { p = recover() }()
 					strHandlerMu.Lock()
+					defer strHandlerMu.Unlock() // (also when ToString panics)
 					if strHandler == nil {
 						strHandler = vm.NewParseHandler().WithDefaultHandlers()
 					}
 					txt, err = strHandler.ToString(b)
-					strHandlerMu.Unlock()
 				}()
 				if p != nil {
 					c.Fail("C15", "panic", fmt.Sprintf("ToString(%s) panicked: %v", f[1], p))
